@@ -46,6 +46,52 @@ Definition v6_global (a : N) : bool :=
   negb (a =? 0) && negb (v6_loopback a) && negb (v6_multicast a) && negb (v6_linklocal a) &&
   negb (v6_mapped a && ((a - mapped_base =? 0) || (a - mapped_base =? 4294967295))).
 
+
+(* ---------- the creation rule as a TABLE of address classes ----------
+   Every IPv6 source falls into exactly one row (ranges [lo, hi) in increasing order); the verdict of a row says from which
+   unicast MACs other than our own a frame with such a source creates a host. *)
+Inductive verdict : Set :=
+| Never            (* no host *)
+| Always           (* from every such MAC, the router's included *)
+| NotFromRouter.   (* from every such MAC except the router's: "non-router global unicast" *)
+
+Definition verdict_holds (v : verdict) (from_router : bool) : bool :=
+  match v with Never => false | Always => true | NotFromRouter => negb from_router end.
+
+(* the IPv4 classes inside ::ffff:0:0/96 (net/netip classifies an IPv4-mapped address by its IPv4 address) *)
+Definition class4m_table : list (N * N * verdict) :=
+  [ (0, 1, Never);                                 (* ::ffff:0.0.0.0                                  *)
+    (1, 2130706432, NotFromRouter);                (* 0.0.0.1 .. 126.255.255.255                       *)
+    (2130706432, 2147483648, Never);               (* 127.0.0.0/8 loopback                             *)
+    (2147483648, 2851995648, NotFromRouter);       (* 128.0.0.0 .. 169.253.255.255                     *)
+    (2851995648, 2852061184, Always);              (* 169.254.0.0/16 link-local                        *)
+    (2852061184, 3758096384, NotFromRouter);       (* 169.255.0.0 .. 223.255.255.255 (RFC 1918 blocks, public) *)
+    (3758096384, 4026531840, Never);               (* 224.0.0.0/4 multicast                            *)
+    (4026531840, 4294967295, NotFromRouter);       (* 240.0.0.0/4 except the limited broadcast         *)
+    (4294967295, 4294967296, Never) ].             (* 255.255.255.255                                  *)
+
+Definition class6_table : list (N * N * verdict) :=
+  [ (0, 1, Never);                                              (* ::  unspecified                         *)
+    (1, 2, Never);                                              (* ::1 loopback                            *)
+    (2, mapped_base, NotFromRouter);                            (* ::2 .. : IPv4-compatible and the rest of ::/80 *)
+    (* ::ffff:0:0/96 is classified by [class4m_table] *)
+    (mapped_base + 4294967296, 65152 * 2 ^ 112, NotFromRouter); (* everything up to fe80:: : NAT64 64:ff9b::/96, discard 100::/64,
+                                                                   global unicast 2000::/3 (Teredo 2001::/32, documentation
+                                                                   2001:db8::/32, 6to4 2002::/16), unassigned, UNIQUE LOCAL
+                                                                   fc00::/8 and fd00::/8, fe00::/9 *)
+    (65152 * 2 ^ 112, 65216 * 2 ^ 112, Always);                 (* fe80::/10 link-local                    *)
+    (65216 * 2 ^ 112, 65280 * 2 ^ 112, NotFromRouter);          (* fec0::/10 site-local                    *)
+    (65280 * 2 ^ 112, 2 ^ 128, Never) ].                        (* ff00::/8 multicast, every scope, solicited-node *)
+
+Fixpoint lookup_class (t : list (N * N * verdict)) (a : N) : option verdict :=
+  match t with
+  | [] => None
+  | (lo, hi, v) :: r => if in_range lo hi a then Some v else lookup_class r a
+  end.
+
+Definition verdict6 (a : N) : option verdict :=
+  if v6_mapped a then lookup_class class4m_table (a - mapped_base) else lookup_class class6_table a.
+
 (* same network number as the home LAN base/bits *)
 Definition in_home_lan (c : cfg) (a : N) : bool :=
   a / 2 ^ (32 - lan_bits c) =? lan_base c / 2 ^ (32 - lan_bits c).
